@@ -156,6 +156,12 @@ TooLong(s, enc) == \E i \in DOMAIN s :
     \/ s[i].c = "addr" /\ (\E j \in DOMAIN s[i].v : j > enc.asz /\ s[i].v[j] # 0)
     \/ s[i].c = "entry_value" /\ TooLong(s[i].sub, enc)
 (* unit-relative references to an entry that is emitted after the referring one may be refused *)
+(* a branch whose displacement does not fit the signed 16-bit operand has no encoding *)
+BranchTooFar(s, enc, res) ==
+    LET o == Offsets(s, enc, res, 0) IN
+    \E i \in DOMAIN s : /\ s[i].c \in {"skip", "bra"}
+                        /\ s[i].target <= Len(s)
+                        /\ LET d == o[s[i].target + 1] - (o[i] + 3) IN d > 32767 \/ d < -32768
 RECURSIVE Forward(_)
 Forward(s) == \E i \in DOMAIN s : \/ s[i].c \in {"call", "parameter_ref"} /\ s[i].ent = "T2"
                                   \/ s[i].c = "entry_value" /\ Forward(s[i].sub)
